@@ -9,6 +9,7 @@ Self-checks of the verifier itself (DESIGN 2.9 / assumption A2) - not a property
   mutants  the catalogue of deliberate property-breaking edits (and of harmless refactorings) is applied to scratch copies of the
            repository; breaking ones must make the named check exit 1, harmless ones must leave it at exit 0
   seeds    the stored independent seeded changes (seeded/*/patch.diff) must still be detected
+  refactorings  the stored independent behaviour-preserving refactorings (refactorings/*/patch.diff) must raise no alarm
 
 exit 0 when everything agrees, 1 otherwise."""
 import itertools
@@ -360,6 +361,34 @@ def seeds(which=None):
     return ok
 
 
+def refactorings(which=None):
+    """the stored independent behaviour-preserving refactorings (refactorings/*/patch.diff) must raise no alarm: every listed check exits 0"""
+    ok = True
+    base = os.path.join(VERIF, "refactorings")
+    for name in sorted(os.listdir(base)) if os.path.isdir(base) else []:
+        if which and name not in which and not any(name.startswith(w) for w in which):
+            continue
+        meta = json.load(open(os.path.join(base, name, "meta.json")))
+        tmp = tempfile.mkdtemp(prefix="vfself_")
+        try:
+            subprocess.run(["git", "-C", REPO, "worktree", "add", "-q", "--detach", os.path.join(tmp, "wt"), "HEAD"], check=True)
+            wt = os.path.join(tmp, "wt")
+            r = subprocess.run(["git", "-C", wt, "apply", os.path.join(base, name, "patch.diff")], capture_output=True, text=True)
+            if r.returncode != 0:
+                print("%-12s PATCH-DOES-NOT-APPLY" % name)
+                ok = False
+                continue
+            codes = _run_checks(wt, meta["checks"])
+            want = meta.get("accepted_nonzero", {})          # documented exits 2 (undecided, loud) on a restructured function; never 1
+            good = all(c == 0 or (c != 1 and want.get(pid) == c) for pid, c in codes.items())
+            ok = ok and good
+            print("%-12s %-10s %s" % (name, "quiet" if good else "ALARM", codes), flush=True)
+        finally:
+            subprocess.run(["git", "-C", REPO, "worktree", "remove", "--force", os.path.join(tmp, "wt")], capture_output=True)
+            shutil.rmtree(tmp, ignore_errors=True)
+    return ok
+
+
 def main(argv=None):
     argv = list(sys.argv[2:] if argv is None else argv)
     what = argv[0] if argv else "engine+regex"
@@ -392,5 +421,7 @@ def main(argv=None):
         ok = ok and good
     if what in ("seeds", "all"):
         ok = seeds(rest) and ok
+    if what in ("refactorings", "all"):
+        ok = refactorings(rest) and ok
     print("selftest %s" % ("OK" if ok else "FAILED"))
     return 0 if ok else 1
